@@ -164,6 +164,11 @@ UNITS = [
      [("DEFAULT_CACHE", "default_cache"), "DFACC_CURRENT", "DDLIST_DIRTY", "FILE_END_DIRTY", "DFREF_NONE"],
      [("HDFMAGIC_BYTES", "((unsigned char *)HDFMAGIC)", "MAGICLEN"), ("LIBVER_BYTES", "ro_verbytes()", "LIBVER_LEN")]),
     ("Sdid", '#include "hdf_priv.h"\n#include "hfile_priv.h"\n', ["SDSTYPE", "DIMTYPE", "CDFTYPE", "H4_MAX_NC_OPEN", "MAX_NC_OPEN"], []),
+    # C03 shape / index arithmetic of the netCDF layer (var.c NC_var_shape, putget.c NCcoordck / NC_varoffset): file kinds, the types whose
+    # length is rounded up to 4 in non-HDF files, the record-dimension marker, the handle flags and the XDR direction NCcoordck looks at
+    ("Ncvar", '#include "hdf_priv.h"\n#include "nc_priv.h"\n#include "mfhdf.h"\n',
+     ["HDF_FILE", "netCDF_FILE", "CDF_FILE", "NC_BYTE", "NC_CHAR", "NC_SHORT", "NC_LONG", "NC_FLOAT", "NC_DOUBLE", "NC_UNLIMITED",
+      "NC_NOFILL", "NC_NDIRTY", "NC_NSYNC", "XDR_ENCODE", "XDR_DECODE", "H4_MAX_VAR_DIMS", "FAIL"], []),
     # C15: the attribute names hdf_read_ndgs (mfhdf/src/hdfsds.c) gives to the strings and annotations of an old-style data set (bytes of the C strings)
     ("NdgAttrs", '#include "hdf.h"\n#include "mfhdf.h"\n', ["DFTAG_SDL", "DFTAG_SDU", "DFTAG_SDF", "DFTAG_SDC", "DFTAG_DIL", "DFTAG_DIA"],
      [("NAME_%s" % n, "((unsigned char *)_HDF_%s)" % m, "strlen(_HDF_%s)" % m)
@@ -317,6 +322,24 @@ FNUNITS = [
      {"ignore_calls": ["HEclear", "HEPclear", "HEpush"], "io": {"HDgetc": "getc", "HDputc": "putc", "Hread": "read", "Hwrite": "write"},
       "assume_calls": {"Hseek": 0, "Hendaccess": 0, "Hstartread": "param:new_aid", "Hstartaccess": "param:new_aid"},
       "abbrev": {"info_cinfo_coder_info_rle_info": "rle", "access_rec_special_rle": "rle", "access_rec_special_info": "info"}}),
+    # C03 / C20: the shape and index arithmetic of the SD/netCDF layer.  NC_var_shape: the dimension sizes are reached through an array of
+    # pointers to NC_dim (region dims_values_size = their `size` members), shape[] / dsizes[] are blocks the function allocates and then
+    # seats into the variable (var_shape_seat / var_dsizes_seat), `goto out`, a switch that falls into `default: break`.
+    ("Var", "mfhdf/src/var.c", ["NC_var_shape"],
+     {"ignore_calls": ["NCadvise", "H4_NCadvise", "nc_serror", "H4_nc_serror"], "cflags": ["-DHDF"], "int_types": {"nc_type": [False, 32]},
+      "c_names": {"NC_var_shape": "H4_NC_var_shape"}}),
+    # NCcoordck (bounds check of a coordinate vector, growth of the record dimension: the fill-on-extend I/O is a set of ASSUMED calls whose
+    # results are entry parameters; `boundary` is a pointer local that can be NULL; `goto bad`) and NC_varoffset (the CDF_FILE groups of its
+    # two switches - a linked list of VXR records - are left out: reaching them is flagged).
+    ("Putget2", "mfhdf/src/putget.c", ["NCcoordck", "NC_varoffset"],
+     {"ignore_calls": ["NCadvise", "H4_NCadvise", "nc_serror", "H4_nc_serror", "HDmemfill", "NC_arrayfill", "H4_NC_arrayfill"], "cflags": ["-DHDF"],
+      "int_types": {"nc_type": [False, 32]}, "twos_complement_bitops": True, "c_names": {"NCcoordck": "H4_NCcoordck"},
+      "unmodelled_cases": ["CDF_FILE"],
+      "assume_calls": {"nc_API": "param:nc_api", "H4_nc_API": "param:nc_api", "hdf_get_vp_aid": "param:get_aid", "H4_hdf_get_vp_aid": "param:get_aid",
+                       "Hseek": "param:seek_ret", "DFKconvert": "param:convert_ret", "Hwrite": "param:write_ret",
+                       "hdf_xdr_setpos": "param:setpos_ret", "H4_hdf_xdr_setpos": "param:setpos_ret", "NCfillrecord": "param:fillrec_ret",
+                       "xdr_numrecs": "param:xdr_numrecs_ret", "H4_xdr_numrecs": "param:xdr_numrecs_ret"},
+      "assume_ptr_calls": {"NC_findattr": "fillattr_null", "H4_NC_findattr": "fillattr_null"}}),
 ]
 
 
